@@ -31,6 +31,9 @@ def explore(core, rng, tier, seed, search=False):
         for size in (2**63 - 1, 2**63 - 2, 2**62, 2**63 - 1 - n, 2**31, 2**32 + 1):
             l = lst(rng, n)
             scripts.append(["chunk %s %d" % (l, size), "chunkfunc %s %d" % (l, size), "windowed %s %d" % (l, size), "windowedfunc %s %d" % (l, size)])
+    # astronomically long slices of zero-size elements (float arithmetic on the length, or len+size, must not be used): piece lengths only
+    for n, size in ((2**53 + 1, 2**53), (2**53 + 3, (2**53 + 3) // 5), (2**62 + 7, 2**60), (2**63 - 1, 2**63 - 1), (2**63 - 1, 2**62), (2**53 + 1, 2**52 + 1), (10**17 + 1, 10**16)):
+        scripts.append(["chunkunits %d %d %d" % (n, size, v) for v in ((0, 1, 2) if n - size + 1 <= 16 else (0, 1))])
     # malformed stream: size 0 / negative — outside the property; model vs implementation only
     for n in (0, 1, 3):
         l = lst(rng, n)
